@@ -59,8 +59,8 @@ def model(name, contracts, ops, depth, fees="paid", bids=(8, 12), spreads=(0, 2)
     }
 
 
-def req(alloc, measure="weight", thr=F(0), fractional=True):
-    return Rec(alloc=dict(alloc), measure=measure, thr=thr, fractional=fractional)
+def req(alloc, measure="weight", thr=F(0), fractional=True, absolute=True):
+    return Rec(alloc=dict(alloc), measure=measure, thr=thr, fractional=fractional, absolute=absolute)
 
 
 # ---------------------------------------------------------------------------------- replay workers
